@@ -516,9 +516,155 @@ def job_denial(job) -> report.JobResult:
     return res
 
 
+# ------------------------------------------------------------------ two tasks sharing one wrapper (handler + watchdog), suspending server
+TWO_TASK_PROGRAMS = {
+    # name: (calls of task A, calls of task B); B starts after a symbolic offset
+    "accept-send|close": (["accept", "send_text"], ["close_code"]),
+    "accept-close|send": (["accept", "close"], ["send_text"]),
+    "accept-close|close": (["accept", "close"], ["close"]),
+    "accept|close-send": (["accept"], ["close_code", "send_text"]),
+    "accept-send-close|send-close": (["accept", "send_text", "close"], ["send_bytes", "close"]),
+}
+
+
+def overlap_scenario(prog: str, V) -> Dict[str, Any]:
+    """V: connect_delay, send_delay, offset (ints or SInt ticks).  Returns the events in the order the server's send() was ENTERED."""
+    import asyncio
+    from engine.vloop import VLoop
+    a_calls, b_calls = TWO_TASK_PROGRAMS[prog]
+    log: Dict[str, Any] = {"forwarded": [], "outcomes": []}
+
+    async def nap(d):
+        if not isinstance(d, int) or d > 0:
+            if d > 0:
+                await asyncio.sleep(d)
+
+    state = {"connected": False}
+
+    async def receive():
+        if not state["connected"]:
+            await nap(V["connect_delay"])
+            state["connected"] = True
+            return {"type": "websocket.connect"}
+        await asyncio.get_running_loop().create_future()  # the client stays silent
+
+    async def send(m):
+        log["forwarded"].append(m["type"])
+        await nap(V["send_delay"])  # flow control: the server's send really suspends
+
+    ws = WebSocket({"type": "websocket", "path": "/", "headers": [], "subprotocols": []}, receive, send)
+
+    async def run(tag, calls, start):
+        await nap(start)
+        for c in calls:
+            try:
+                if c == "accept":
+                    await ws.accept()
+                elif c == "send_text":
+                    await ws.send_text("x")
+                elif c == "send_bytes":
+                    await ws.send_bytes(b"y")
+                elif c == "close":
+                    await ws.close()
+                elif c == "close_code":
+                    await ws.close(1008, "policy")
+                log["outcomes"].append((tag, c, "ok"))
+            except (RuntimeError, AssertionError, WebSocketDisconnect) as ex:  # the wrapper rejects illegal calls with RuntimeError or assert
+                log["outcomes"].append((tag, c, type(ex).__name__))
+
+    async def main():
+        await asyncio.gather(run("A", a_calls, 0), run("B", b_calls, V["offset"]))
+        log["final_state"] = ws.application_state
+    loop = VLoop()
+    try:
+        loop.run_until_complete(main())
+    finally:
+        for t in asyncio.all_tasks(loop):
+            t.cancel()
+        try:
+            loop.run_until_complete(asyncio.sleep(0))
+        except BaseException:  # noqa: BLE001
+            pass
+        loop.close()
+    return log
+
+
+def overlap_verdict(log) -> str:
+    fw = log["forwarded"]
+    if fw and fw[0] not in ("websocket.accept", "websocket.close"):
+        raise Fail("data-before-accept", str(fw))
+    if fw.count("websocket.accept") > 1:
+        raise Fail("accept-forwarded-twice", str(fw))
+    if "websocket.close" in fw:
+        k = fw.index("websocket.close")
+        if fw[k + 1:]:
+            raise Fail("event-forwarded-after-close", str(fw))
+    if "websocket.accept" in fw and any(x == "websocket.send" for x in fw[:fw.index("websocket.accept")]):
+        raise Fail("data-before-accept", str(fw))
+    if "websocket.close" in fw and log.get("final_state") != WebSocketState.DISCONNECTED:
+        raise Fail("state-moved-back-after-close", str(log.get("final_state")))
+    return "overlap"
+
+
+def job_overlap(job) -> report.JobResult:
+    import sys
+    sys.unraisablehook = lambda *a: None
+    res = report.JobResult.new(job["name"])
+    twin = job.get("twin", False)
+    eng = Engine(budget_s=600)
+    names = ["connect_delay", "send_delay", "offset"]
+    Z = {k: z3.Int(k) for k in names}
+    for v in Z.values():
+        eng.solver.add(v >= 0, v <= 12)
+
+    def fn():
+        log = overlap_scenario(job["prog"], {k: SInt(v) for k, v in Z.items()})
+        if twin:
+            raise Fail("twin-assert-false")
+        return overlap_verdict(log)
+
+    def on_path(e, r):
+        kind, v = r
+        klass = detail = None
+        if kind == "exc":
+            klass, detail = (v.klass, v.detail) if isinstance(v, Fail) else (f"exception:{type(v).__name__}", repr(v))
+        e.last_sat = False
+        m = e.witness()
+        cv = {k: m.eval(z, True).as_long() for k, z in Z.items()}
+        wit = {"two_tasks": job["prog"], **cv}
+        cp = concrete_overlap(wit)
+        if klass is not None:
+            res.violation(f"C11/two-tasks/{klass.split(':')[0]}", wit, f"{klass} {detail}; concrete schedule: {cp}", (cp is not None) or twin)
+            return
+        res.kind("overlap")
+        if cp is not None:
+            res["harness_errors"].append(f"symbolic schedule holds but its concrete instance fails: {wit}: {cp}")
+        res["validated"] += 1
+        res.sample(wit, limit=1)
+    eng.explore(fn, on_path)
+    res.absorb_engine(eng)
+    return res
+
+
+def concrete_overlap(w) -> Optional[str]:
+    prev = Engine.cur
+    Engine.cur = None
+    try:
+        overlap_verdict(overlap_scenario(w["two_tasks"], {k: w[k] for k in ("connect_delay", "send_delay", "offset")}))
+        return None
+    except Fail as f:
+        return f"{f.klass}: {f.detail}"
+    except Exception as ex:  # noqa: BLE001
+        return f"exception {type(ex).__name__}: {ex}"
+    finally:
+        Engine.cur = prev
+
+
 def jobs(tier: str):
     b = META["bounds"][tier]
     out = [dict(name=f"step/{c}", kind="step", call=c) for c in CALLS]
+    for prog in TWO_TASK_PROGRAMS:
+        out.append(dict(name=f"two-tasks/{prog}", kind="overlap", prog=prog, weight=30))
     out.append(dict(name="twin/step/accept", kind="step", call="accept", twin=True))
     alphabet = ["accept", "receive", "receive_text", "receive_bytes", "send_text", "close", "raw_accept", "raw_close", "raw_send", "iter_text", "send_bytes"]
     for first in range(len(alphabet)):
@@ -530,11 +676,15 @@ def jobs(tier: str):
 
 
 def run_job(job):
-    return {"step": job_step, "seq": job_seq, "denial": job_denial}[job["kind"]](job)
+    return {"step": job_step, "seq": job_seq, "denial": job_denial, "overlap": job_overlap}[job["kind"]](job)
 
 
 def replay(rec) -> int:
     w = rec["witness"]
+    if "two_tasks" in w:
+        cp = concrete_overlap(w)
+        print(f"replay C11: {w} -> {cp}")
+        return 1 if cp else 0
     if "calls" in w:
         cp = concrete_seq(w["calls"], [EVENTS.index(x) for x in w["server_script"]])
     else:
